@@ -18,6 +18,7 @@ struct cs {
   int srv_calls, srv_put_bytes, srv_put_ok;
   int resp_total, resp_2xx, resp_err, nacks, notifications;
   int last_code;
+  int watch_tok, watch_code; /* response code seen for the request with this one-byte token (0 = none yet) */
   size_t last_len;
   uint64_t last_hash;
   int body_ok; /* last large response matched the pattern */
@@ -125,6 +126,9 @@ cs_resp(coap_session_t *s, const coap_pdu_t *sent, const coap_pdu_t *rcv, const 
   CS->resp_total++;
   int code = coap_pdu_get_code(rcv);
   CS->last_code = code;
+  coap_bin_const_t wt = coap_pdu_get_token(rcv);
+  if (CS->watch_tok && wt.length == 1 && wt.s[0] == CS->watch_tok)
+    CS->watch_code = code;
   size_t size = 0, off = 0, total = 0;
   const uint8_t *d = NULL;
   CS->last_len = 0;
@@ -302,5 +306,21 @@ cs_canary(struct cs *c) {
     cs_pump(c, 400, 120000);
   coap_session_release(s);
   return m != COAP_INVALID_MID && c->resp_2xx == before + 1 && c->last_code == COAP_RESPONSE_CODE_CONTENT && c->last_len == 5;
+}
+
+/* canary on a session the scenario used: with memory available again a Confirmable GET /r on it must be answered 2.05
+ * (earlier Confirmables of the scenario may first have to run out of retransmissions: the horizon covers that) */
+static int
+cs_canary_same(struct cs *c, coap_session_t *s) {
+  coap_pdu_t *p = cs_request(c, s, 1, COAP_REQUEST_CODE_GET, "r", 0xCB);
+  if (!p)
+    return 0;
+  c->watch_tok = 0xCB;
+  c->watch_code = 0;
+  coap_mid_t m = coap_send(s, p);
+  for (int round = 0; m != COAP_INVALID_MID && !c->watch_code && round < 4; round++)
+    cs_pump(c, 400, 120000);
+  c->watch_tok = 0;
+  return m != COAP_INVALID_MID && c->watch_code == COAP_RESPONSE_CODE_CONTENT;
 }
 #endif
